@@ -52,9 +52,10 @@ def observers(r, want_doc, want_logs, label):
 
 def scenario(desc):
     maxr, k, crash = desc["max"], desc["prefix"], desc["crash"]
+    prefix_max = desc.get("prefix_max", maxr)   # retention setting while the prefix runs were made
     s = sc.Scratch("c13")
     try:
-        r = sc.Repo(s, "r", TARGETS, commands={t["path"]: {"build": "x"} for t in TARGETS}, max_retained_runs=maxr)
+        r = sc.Repo(s, "r", TARGETS, commands={t["path"]: {"build": "x"} for t in TARGETS}, max_retained_runs=prefix_max)
         viol = []
         # a checkpoint with pending entries
         r.write("a/pending.txt", "pending\n")
@@ -71,6 +72,10 @@ def scenario(desc):
             if pr.code != 0 or pr.json() is None:
                 raise common.EngineError("prefix run %d failed: %r" % (i, pr))
             last_doc, last_logs = pr.json(), prefix_logs(i)
+        if prefix_max != maxr:
+            # the retention setting is edited between runs (still >= 2)
+            r.cfg["max_retained_runs"] = maxr
+            r.write_cfg()
         # ---- the victim
         c = ctlmod.Controller(s)
         realised = False
@@ -123,7 +128,7 @@ def scenario(desc):
         finally:
             c.close()
         # ---- what must survive
-        label = "max=%d prefix=%d crash=%s" % (maxr, k, crash.get("name") or "kill@%s" % (crash.get("state"),))
+        label = "max=%d%s prefix=%d crash=%s" % (maxr, "" if prefix_max == maxr else " (was %d)" % prefix_max, k, crash.get("name") or "kill@%s" % (crash.get("state"),))
         if victim_completed and victim_doc is not None:
             # the crash point was after the run had fully completed (e.g. kill lost the race): the
             # victim is then simply the latest completed run
@@ -159,7 +164,7 @@ def scenario(desc):
         else:
             viol += [(sig.replace("damaged", "wrong-after-next-run"), d) for sig, d in observers(r, nr.json(), prefix_logs(99), label + " then next run")]
             n = len(os.listdir(os.path.join(r.out_dir(), "run")))
-            if n > maxr:
+            if n > maxr and prefix_max == maxr:
                 viol.append(("too-many-run-directories", "%s: %d directories" % (label, n)))
         return {"evaluations": 1, "nontrivial": 1 if realised else 0, "unrealised": 0 if realised else 1,
                 "violations": [{"sig": sig, "detail": d, "rank": k * 100 + maxr, "case": {"c13": desc}} for sig, d in viol],
@@ -180,6 +185,12 @@ def scenarios(tier):
                 out.append({"max": maxr, "prefix": k, "crash": {"kind": "point", "name": name}})
             for st in KILL_STATES:
                 out.append({"max": maxr, "prefix": k, "crash": {"kind": "kill", "state": list(st)}})
+    # retention setting changed between runs: prefix made with a larger (or smaller) max_retained_runs
+    for (pm, k, maxr) in ([(5, 4, 3), (5, 5, 2), (2, 2, 4)] if tier == "quick" else [(5, 4, 3), (5, 5, 2), (5, 3, 2), (2, 2, 4), (3, 3, 5), (6, 6, 3)]):
+        for name in POINTS:
+            out.append({"max": maxr, "prefix": k, "prefix_max": pm, "crash": {"kind": "point", "name": name}})
+        for st in KILL_STATES:
+            out.append({"max": maxr, "prefix": k, "prefix_max": pm, "crash": {"kind": "kill", "state": list(st)}})
     return out
 
 
@@ -193,7 +204,7 @@ def run(prop, tier):
            "unrealised_crash_points": sum(r["unrealised"] for r in results),
            "violations": [v for r in results for v in r["violations"]],
            "samples": [r["sample"] for r in results[:: max(1, len(results) // 5)]][:6], "exhaustive": True,
-           "rule": "prefix histories of {0, 1, max, max+1} completed runs x max_retained_runs in {2} (thorough {2,3}) x a victim run (2 groups, 3 controlled children, -t a b c --deps) terminated at: every guarded point in run.rs/tracking.rs (%s; abort at the first hit) and SIGKILL at the child states (arrived, exited) in %s; a checkpoint with pending entries is installed first; after the crash: result show and log show == last completed run (or report none), checkpoint show and file unchanged, the next run exits 0 and becomes the latest; non-trivial = scenarios whose crash point was actually realised" % (", ".join(POINTS), KILL_STATES)}
+           "rule": "prefix histories of {0, 1, max, max+1} completed runs x max_retained_runs in {2} (thorough {2,3}) x a victim run (2 groups, 3 controlled children, -t a b c --deps) terminated at: every guarded point in run.rs/tracking.rs (%s; abort at the first hit) and SIGKILL at the child states (arrived, exited) in %s; plus prefixes made under a different max_retained_runs that is edited (to a value >= 2) before the victim run; a checkpoint with pending entries is installed first; after the crash: result show and log show == last completed run (or report none), checkpoint show and file unchanged, the next run exits 0 and becomes the latest; non-trivial = scenarios whose crash point was actually realised" % (", ".join(POINTS), KILL_STATES)}
     by = {}
     for v in agg["violations"]:
         by[v["sig"]] = by.get(v["sig"], 0) + 1
